@@ -67,17 +67,15 @@ Dropped: `leb128::write::{unsigned, signed}` free fns and `Leb128::write` (std::
 TAGS (C09): w-bytes, w-bytes-at, w-fixed, w-fixed-at, w-leb, w-len, w-err-unch, w-frame (primitive layer, assumed);
 udata-fit / udata-too-large / udata-word-size, sdata-*, udata-at-* (Ok => fits and exactly that field; does not fit =>
 Err(ValueTooLarge); other size => Err(UnsupportedWordSize(size))); eh-data, eh-data-reject, eh-data-too-large;
-initial-length, initial-length-size, initial-length-at, initial-length-at-too-large, initial-length-at-reserved (FAILS);
+initial-length, initial-length-size, initial-length-at, initial-length-at-too-large, initial-length-at-reserved;
 leb-size (uleb128_size / sleb128_size / Leb128::{unsigned,signed}.len / bytes().len all equal the closed-form size).
 (C18): w-address, w-offset, w-offset-at, w-eh-pointer, w-reference (event contracts, assumed).
 
-FINDING F-wcore-1 (genuine, C09; native/src/bin/f_wcore_1.rs): `write_initial_length_at(off, length, Dwarf32)` returns Ok
-for length in 0xffff_fff0..=0xffff_ffff, the range DWARF 5 section 7.4 reserves (0xffff_ffff = 64-bit escape); the bytes do not
-read back (`read_initial_length`: UnknownReservedLength / taken for DWARF64). `Error::InitialLengthOverflow` exists for
-this but no function returns it. Fix: `if format == Format::Dwarf32 && length >= 0xffff_fff0 { return
-Err(Error::InitialLengthOverflow) }` in write_initial_length_at. The clause [C09:initial-length-at-reserved] is only emitted
-by this batch's own build (`populate(.., findings=True)`), so that downstream batches stay quiet: `run.py wcore` exits 1
-with exactly that clause on the pinned tree.
+FINDING F-wcore-1 (genuine, C09; native/src/bin/f_wcore_1.rs; FIXED in /repo 3c89b90): `write_initial_length_at(off, length,
+Dwarf32)` returned Ok for length in 0xffff_fff0..=0xffff_ffff, the range DWARF 5 section 7.4 reserves (0xffff_ffff = 64-bit
+escape); the bytes did not read back (`read_initial_length`: UnknownReservedLength / taken for DWARF64). It now returns
+`Err(InitialLengthOverflow)` for that range; [C09:initial-length-at-reserved] states exactly that and
+[C09:initial-length-at] that Ok implies a 32-bit length below 0xffff_fff0. Both clauses are part of every downstream build.
 
 NOT DECIDED here: that `write`'s bytes for `Uleb/Sleb/U` fields are the DWARF encodings (K-WPRIM, K-LEB, K-PRIM);
 `Ok` is never guaranteed (an implementation's `write` may fail for its own reasons) - "ValueTooLarge exactly when the value
@@ -211,9 +209,7 @@ def inv_signed(cnt):
     return ' || '.join(ds)
 
 
-def populate(ctx, sk, findings=False):
-    """findings=True (only this batch's own build): also state the clause that FAILS on the pinned tree because of the
-    genuine defect F-wcore-1 (see header); downstream batches call populate(ctx, sk) and are not disturbed by it."""
+def populate(ctx, sk):
     lb = Source('leb128.rs', ctx)
     wmod = wsource('write/mod.rs', ctx)
     wrs = Source('write/writer.rs', ctx)
@@ -287,7 +283,7 @@ use crate::wspec::*;''')
     wr.required(PRIMS)
     wr.required(RELOCATABLE)
     wr.clean()
-    writer_contracts(wr, plain=False, findings=findings)
+    writer_contracts(wr, plain=False)
     sk.add('write::writer', wr)
     ilo = wrs.item(r'^pub struct InitialLengthOffset', label='InitialLengthOffset').clean()
     sk.add('write::writer', ilo)
@@ -316,7 +312,7 @@ CAST_S = ('proof { assert((val as i8) as i64 == val <==> (-0x80i64 <= val && val
           'assert(val < 0 ==> (val as u64) as int == val as int + 0x1_0000_0000_0000_0000) by (bit_vector); }')
 
 
-def writer_contracts(wr, plain, findings=False):
+def writer_contracts(wr, plain):
     """contracts of `trait Writer`. plain=False: the five relocatable methods are required and carry EVENT contracts
     (wcore); plain=True: they keep their default bodies and carry the plain-writer contracts (wreloc)."""
     wr.insert_after('type Endian: Endianity;', GHOST)
@@ -366,14 +362,16 @@ def writer_contracts(wr, plain, findings=False):
             f'Format::Dwarf64 => emitted2({O}, {F}, wu(0xffff_ffff, 4), wu(0, 8)) && o.off() == {O}.len + 4 }})',
             f'[C09:initial-length-size] res is Ok ==> {F}.len == {O}.len + (match format {{ Format::Dwarf32 => 4nat, Format::Dwarf64 => 12nat }})',
             FRAME])
+        # DWARF 5 section 7.4: a 32-bit initial length is < 0xffff_fff0 (0xffff_fff0..0xffff_fffe reserved, 0xffff_ffff = 64-bit
+        # escape); such a length does not read back (read_initial_length, core [C09:initial-length-reserved]).
+        # (F-wcore-1, fixed in /repo 3c89b90: the reserved range is Err(InitialLengthOverflow).)
         wr.splice('write_initial_length_at', ret='res', ensures=[
-            f'[C09:initial-length-at] res is Ok ==> ufits(length as nat, word_size(format)) && offset.off() + word_size(format) <= {O}.len && '
+            f'[C09:initial-length-at] res is Ok ==> ufits(length as nat, word_size(format)) && (format is Dwarf32 ==> length < 0xffff_fff0) && '
+            f'offset.off() + word_size(format) <= {O}.len && '
             f'emitted({O}, {F}, WOp::PatchU {{ offset: offset.off() as nat, val: length as nat, size: word_size(format) }})',
+            '[C09:initial-length-at-reserved] format is Dwarf32 && 0xffff_fff0 <= length <= 0xffff_ffff ==> res == Err::<(), Error>(Error::InitialLengthOverflow)',
             '[C09:initial-length-at-too-large] !ufits(length as nat, word_size(format)) ==> res == Err::<(), Error>(Error::ValueTooLarge)',
-            ERR_UNCH] + ([
-            # DWARF 5 section 7.4: a 32-bit initial length is < 0xffff_fff0 (0xffff_fff0..0xffff_fffe reserved, 0xffff_ffff = 64-bit
-            # escape); such a length does not read back (read_initial_length, core [C09:initial-length-reserved]).  FAILS: F-wcore-1
-            '[C09:initial-length-at-reserved] format is Dwarf32 && length >= 0xffff_fff0 ==> res is Err'] if findings else []))
+            ERR_UNCH])
         # EVENT contracts of the relocatable primitives (C18): what generic writers are proved against
         wr.splice('write_address', ret='res', ensures=[
             f'[C18:w-address] res is Ok ==> emitted({O}, {F}, WOp::Address {{ address, size }})', ERR_UNCH])
@@ -390,5 +388,5 @@ def writer_contracts(wr, plain, findings=False):
 def build(ctx):
     sk = Skeleton(ctx, core.rd('prelude/crate.rs'))
     core.populate(ctx, sk)
-    populate(ctx, sk, findings=True)
+    populate(ctx, sk)
     return sk
